@@ -48,7 +48,27 @@ var amountTable = []types.Currency{
 	types.Siacoins(1), types.Siacoins(3), types.Siacoins(1).Div64(4),
 }
 
-func amount(code int) types.Currency { return amountTable[mod(code, len(amountTable))] }
+// extremeTable holds amounts at the edges of the 128-bit range; lists of them
+// make renter-chosen sums overflow (before or at the last addition) or wrap to
+// something small and affordable. Codes >= 100 select them.
+var extremeTable = []types.Currency{
+	types.NewCurrency64(2), types.NewCurrency64(5), types.NewCurrency(^uint64(0), 0), types.NewCurrency(0, 1),
+	types.NewCurrency(0, 1<<63), types.NewCurrency(5, 1<<63), types.MaxCurrency.Sub(types.NewCurrency64(7)), types.MaxCurrency,
+}
+
+func amount(code int) types.Currency {
+	if code >= 100 {
+		return extremeTable[(code-100)%len(extremeTable)]
+	}
+	return amountTable[mod(code, len(amountTable))]
+}
+
+func genAmountCode(t *rapid.T, label string) int {
+	if rapid.IntRange(0, 6).Draw(t, label+"-extreme") == 0 {
+		return 100 + rapid.IntRange(0, len(extremeTable)-1).Draw(t, label+"-x")
+	}
+	return rapid.IntRange(0, len(amountTable)-1).Draw(t, label)
+}
 
 // ---------------------------------------------------------------- executor
 
@@ -1368,9 +1388,9 @@ func genC08Op(t *rapid.T, nc int, allowRace bool) C08Op {
 	switch {
 	case k < 6:
 		op.Op = "fund"
-		n := rapid.IntRange(1, 3).Draw(t, "ndep")
+		n := rapid.IntRange(1, 4).Draw(t, "ndep")
 		for i := 0; i < n; i++ {
-			op.Dep = append(op.Dep, rapid.IntRange(0, 2).Draw(t, "acct"), rapid.IntRange(0, len(amountTable)-1).Draw(t, "amt"))
+			op.Dep = append(op.Dep, rapid.IntRange(0, 2).Draw(t, "acct"), genAmountCode(t, "amt"))
 		}
 	case k < 10:
 		op.Op = "repl-acct"
@@ -1475,7 +1495,7 @@ func genC08Op(t *rapid.T, nc int, allowRace bool) C08Op {
 	}
 	switch op.Op {
 	case "repl-acct", "repl-pool":
-		op.Target = rapid.IntRange(0, len(amountTable)-1).Draw(t, "target")
+		op.Target = genAmountCode(t, "target")
 		n := rapid.IntRange(1, 3).Draw(t, "nkeys")
 		for i := 0; i < n; i++ {
 			op.Keys = append(op.Keys, rapid.IntRange(0, 2).Draw(t, "key"))
@@ -1511,7 +1531,7 @@ func genC08(t *rapid.T) C08Case {
 
 var c08Prop = kit.Prop[C08Case]{
 	ID:   "C08",
-	Rule: "sequences (2..20, thorough 2..40) of fund, replenish accounts/pools, append, free, sector-roots, latest-revision, renew, refresh (full/partial), mine, broadcasting and mining an older doubly-signed revision while newer ones exist, 2-3-way races of honest RPCs and forced interleavings (a second RPC on the same contract issued exactly while the host waits for the second renter message of a renew, refresh, append, free or replenish) on 1-2 contracts against the real rhp4.Server, every revising RPC kind re-issued against a contract after it was renewed / refreshed or after the chain was mined past its proof height (must be refused, nothing signed or persisted), each RPC honest or with exactly one corruption (challenge: garbage / zero / other key / number -1 / +1 / replayed; renter signature: garbage / zero / other key / over another amount, root or number / replayed; replayed request; price table signed by another key / expired / altered; request for another contract; out-of-range indices, offsets, lengths; zero, missing or overflowing deposits and targets; renewal parameters out of bounds; renewal funded with inputs whose signatures are invalid or that are double-spent through the pool), the rest of the exchange carried on honestly. Oracle over the recorded Contractor calls: every committed revision equals core's ReviseFor*/Renew*/Refresh* applied by the harness to the previous revision and the arguments it sent, is doubly signed, monotone and value conserving; corrupted or underivable requests change nothing and trigger no mutating call; the latest revision validates under core as a revision of the on-chain element. Non-trivial = >= 2 committed revisions and >= 1 rejected corrupted/replayed request in one sequence; distinct by hash of the case.",
+	Rule: "sequences (2..20, thorough 2..40) of fund, replenish accounts/pools, append, free, sector-roots, latest-revision, renew, refresh (full/partial), mine, broadcasting and mining an older doubly-signed revision while newer ones exist, 2-3-way races of honest RPCs and forced interleavings (a second RPC on the same contract issued exactly while the host waits for the second renter message of a renew, refresh, append, free or replenish) on 1-2 contracts against the real rhp4.Server, every revising RPC kind re-issued against a contract after it was renewed / refreshed or after the chain was mined past its proof height (must be refused, nothing signed or persisted), each RPC honest or with exactly one corruption (challenge: garbage / zero / other key / number -1 / +1 / replayed; renter signature: garbage / zero / other key / over another amount, root or number / replayed; replayed request; price table signed by another key / expired / altered; request for another contract; out-of-range indices, offsets, lengths; zero, missing or overflowing deposits and targets; honest-looking deposit lists and replenish targets at the edges of the 128-bit range (2^64-1, 2^64, 2^127, 2^128-1-k; sums that overflow early, late, or wrap to something affordable - the renter then signs the wrapped total); renewal parameters out of bounds; renewal funded with inputs whose signatures are invalid or that are double-spent through the pool), the rest of the exchange carried on honestly. Oracle over the recorded Contractor calls: every committed revision equals core's ReviseFor*/Renew*/Refresh* applied by the harness to the previous revision and the arguments it sent, is doubly signed, monotone and value conserving; corrupted or underivable requests change nothing and trigger no mutating call; the latest revision validates under core as a revision of the on-chain element. Non-trivial = >= 2 committed revisions and >= 1 rejected corrupted/replayed request in one sequence; distinct by hash of the case.",
 	Assumptions: []string{
 		"host = rhp4.Server over the repository's reference EphemeralContractor (which itself re-checks signatures and revision numbers) on the all-v2 test network, in-memory transport",
 		"expired price tables are produced by signing a table with a past ValidUntil with the host key (the harness holds it); no sleeping",
